@@ -20,10 +20,55 @@ KF = {
     "mod_add": {"KF_MOD_ADD_CARRY": None},
     "naf": {"KF_NAF_TOP_CARRY": None},
 }
-if os.environ.get("C01_NO_KF"):
-    KF = {k: {} for k in KF}
+# all thirteen findings were repaired in /repo (known_findings.json: fixed): no guard is in force any more
+KF = {k: {} for k in KF}
 
-META = {"bounds": "", "outside": "", "assumptions": [], "harness_functions": []}
+META = {
+    "bounds": (
+        "big_num.h compiled per job with BN_DIGIT_BIT_CNT in {8,16,32,64}, BN_BIT_LEN = 4 digits (8 digits for the inverse/Legendre/mod_sqrt jobs, "
+        "which need 4 spare digits), BN_CC_MULL_DIV on and off where the code differs. All digits, the stale digits above `digits`, digit operands, "
+        "shift/bit numbers and buffer bytes are symbolic; capacities/digit counts/buffer sizes are concrete shapes. "
+        "L1 digit primitives: bits/ctz/clz/ffs/is_pow2/parity all four widths, all values; bn_digit_mult__int: compiler build all widths; portable build: "
+        "8 bit against the native product, 16/32 bit (64 bit thorough only, measured > 600 s, may be inconclusive) fast paths against the native product and the Knuth-M path "
+        "against the schoolbook sum of half-digit products; bn_digit_div__int / _short / public wrappers: 8 bit both builds, all (lo,hi,d) against hi:lo == q*d+r, r<d; "
+        "widths 16..64: only d == 0 and the portable power-of-two-divisor path. "
+        "L2 digit-array kernels (add, add_digit, sub, sub__int via sub, sub_digit, calc_digits, cmp, l_shift, r_shift for every shift < array width, incl. a==b aliasing): "
+        "arrays of 1..4 digits (value <= 128 bits: 64-bit digits 1..2) quick widths 8 and 64, thorough all four; mult_digit / add_digit_mult / sub_digit_mult: "
+        "carry logic for EVERY digit-multiply function bounded by (B-1)^2 (uninterpreted), plus the real compiler multiply; import/export be/le bin/hex: "
+        "capacity 1..2 digits, buffer sizes 0..capacity+1 (hex 0..2*capacity+2), flags 0/AUTO_SIZE, quick widths 8 and 32. "
+        "L3 bn_* wrappers (init, add, sub, add_digit, sub_digit, mult, square, mult_digit, l_shift/r_shift for every count <= capacity+W+9, and/or/xor, "
+        "bit_set/is_bit_set/assign_2exp, assign/assign_init/assign_zero/assign_digit, cmp/is_*/calc_bits/ctz/clz/calc_digits): capacities 1..4 digits, "
+        "digits 0..capacity, aliasing bn==n for add/sub/mult/cmp, NULL carry; representation invariant + exact value or documented error; quick widths 8 and 32, thorough all. "
+        "bn_mult/bn_mult_digit: uninterpreted digit multiply at every shape, real compiler multiply at 2x1, 3x2x1 digits. "
+        "L4 (8-bit digits): bn_div long division 1/1 digit (quick), + portable build (203 s), remainder==bn, NULL remainder, bn_mod at 1/1, plain 2/1 and 2/2 digits (thorough; measured 371 s / 370 s), "
+        "trivial paths (zero divisor, n<d, n==d object, remainder too small); with bn_div/bn_mult replaced by their contracts: bn_sqrt1 (quick) / 2 / 3 / 5 for values 1..255; "
+        "bn_gcd values 1..255, bn_gcd_bin values 1..31 (thorough); bn_mod_add/sub/mult/square/mult_digit/reduce one-digit operands all values (+ add/sub at full capacity); "
+        "bn_mod_exp_digit/bn_mod_exp exponent <= 15 (thorough); bn_mod_inv1/inv2 prime modulus <= 13, bn_mod_inv_bin modulus 13, bn_mod_legendre prime modulus <= 31, "
+        "bn_mod_sqrt modulus 7 (quick) and 13 (thorough); bn_calc_naf window 4 values 1..255 (quick), windows 2,3 at full capacity and bn_calc_jsf values 1..255 (thorough); "
+        "bn_combo_column_get window 1..4 x 1..4."),
+    "outside": (
+        "128-bit digits; operands wider than 4 digits; Barrett reduction, bn_egcd, bn_digit_egcd, bn_mod_inv3, bn_sqrt4, bn_mod_div_mont/bn_mod_inv_mont/bn_mod_div/bn_mod_small; "
+        "bn_digit_div__int general path and bn_digit_gcd/_gcd_bin at digit widths >= 16 (no verdict within 600 s on any back end; 8-bit digit gcd is a thorough job); "
+        "portable 64-bit digit multiply general path unless the thorough job finishes; bn_div with dividends above 2 digits (3/1: no verdict in 1500 s) and the aliased forms above 1/1 (2/1 with remainder == bn: no verdict in 1500 s); "
+        "Tonelli-Shanks branch of bn_mod_sqrt (modulus = 1 mod 8; no verdict in 600 s at m = 17); bn_mod_inv_bin on non-invertible input (does not terminate: documented 'assuming inverse exists'); "
+        "modulus 1; bn_exp_digit; a trailing single nibble in little-endian hex import; gcc/clang x -O levels (only: no undefined behaviour found by CBMC's checks inside the bounds, "
+        "except the findings); the one-before-begin pointer formed by the two big-endian import loops and the num[-1] index evaluated by bn_sub(0,0) are not flagged by CBMC's object model."),
+    "assumptions": [
+        "gen.py: big_num_hooked.h = /repo/include/math/big_num.h with every static inline definition made substitutable via -DSTUB_<name> (text identical otherwise)",
+        "libc stubs under CBMC: memmove/memcpy/memset as byte loops with a length assertion (CBMC's built-in memmove gave non-reproducing results on 16..64-bit digit arrays); native replays use libc",
+        "uninterpreted digit multiply (-DSTUB_bn_digit_mult__int): any function with result <= (B-1)^2; the real multiply is decided in layer 1",
+        "layer 4: bn_div and bn_mult replaced by contracts (spec_stubs.h) stated over native integers, incl. their EOVERFLOW/EINVAL conditions and lazy zeroing; "
+        "division inside contract and oracle is one uninterpreted function pair constrained by n == q*d + r, r < d (unique solution)",
+        "bn_l_shift / NULL-carry bn_add, bn_sub are specified as arithmetic mod 2^capacity (as the modular layer uses them); bn_mult's EOVERFLOW is the conservative "
+        "digits(bn)+digits(n) > capacity; bn_div's EOVERFLOW 'normalised dividend does not fit' is accepted as a loud failure",
+        "bn_is_even(0) == 0 is taken as specified by the code (guards digits == 0)",
+        "big-endian importers: one guard byte in front of the caller buffer (see impexp.c)",
+        "layer 4 value bounds (VMAX/MMAX/MFIX/EMAX) are assumptions of the respective jobs and part of their shape text",
+        "known findings are excluded by KF_* assumptions listed in KF of this file; each has findings/<name>.md and a replay",
+    ],
+    "harness_functions": ["harness", "bn_make", "bn_value", "v_value", "v_mask", "bn_repr_ok", "o_add", "o_sub", "o_dmul", "uf_mul", "o_div", "o_mod", "o_gcd",
+                          "spec_digits", "spec_set", "v_memmove", "v_memcpy", "v_memset", "v_alloc", "v_buf", "hexval", "divides_exactly"],
+}
 
 
 def cfg(w, cc):
@@ -85,10 +130,10 @@ def digit_jobs(tier):
             if w == 8:
                 out.append(J("dig-div-%s" % t, "digit.c", dict(base, OP_DIV=None, **(KF["digit_div"] if not cc else {})), 2 * w + 3,
                              "digit width 8, %s divide, all lo,hi,d" % how,
-                             "bn_digit_div__int: EINVAL for d=0, else hi:lo == q*d+r, r<d, remainder_hi == 0"))
+                             "bn_digit_div__int: EINVAL for d=0, else hi:lo == q*d+r, r<d, remainder_hi == 0", cost=300, timeout=600))
                 out.append(J("dig-divshort-%s" % t, "digit.c", dict(base, OP_DIVSHORT=None), 2 * w + 3,
                              "digit width 8, %s divide, all lo,hi,d" % how,
-                             "bn_digit_div__int_short == low quotient digit (direct for hi<d, via bn_digit_div__int otherwise)"))
+                             "bn_digit_div__int_short == low quotient digit (direct for hi<d, via bn_digit_div__int otherwise)", cost=300, timeout=600))
             else:
                 out.append(J("dig-div-%s-zero" % t, "digit.c", dict(base, OP_DIV=None, MODE_ZERO=None), 2 * w + 3,
                              "digit width %d, %s divide, d = 0, all lo,hi" % (w, how), "bn_digit_div__int: EINVAL for d=0"))
@@ -96,12 +141,17 @@ def digit_jobs(tier):
                     out.append(J("dig-div-%s-pow2" % t, "digit.c", dict(base, OP_DIV=None, MODE_P2=None, **KF["digit_div"]), 2 * w + 3,
                                  "digit width %d, portable divide, hi != 0, d = 2^k, all lo,hi,k" % w,
                                  "bn_digit_div__int shift path: hi:lo == q*d+r, r<d", solver="kissat", cost=w))
+    if tier == "thorough":   # 8-bit digit gcd: Euclid and Stein against a subtraction-only reference (measured 460 s / 290 s with kissat)
+        for nm, inc in (("euclid", "bn_digit_gcd ==|loop bound"), ("stein", "bn_digit_gcd_bin ==")):
+            out.append(J("dig-gcd-w8cc-%s" % nm, "digit.c", dict(cfg(8, 1), OP_GCD=None, GCD_STEPS=256), 258,
+                         "digit width 8, all a,b", "bn_digit_gcd / bn_digit_gcd_bin == subtractive reference gcd, divides both operands",
+                         solver="kissat", prop_include=inc, cost=450, timeout=1500))
     # public wrappers (NULL-tolerant out-parameters) at 8 bit, portable build
     base = cfg(8, 0)
     out.append(J("dig-mult-public-w8pt", "digit.c", dict(base, OP_MULT=None, PUBLIC_WRAPPER=None), 10,
                  "digit width 8, bn_digit_mult, all a,b", "bn_digit_mult == native product"))
     out.append(J("dig-div-public-w8pt", "digit.c", dict(base, OP_DIV=None, PUBLIC_WRAPPER=None, **KF["digit_div"]), 19,
-                 "digit width 8, bn_digit_div, all lo,hi,d", "bn_digit_div: EINVAL for d=0, else hi:lo == q*d+r, r<d, remainder_hi == 0"))
+                 "digit width 8, bn_digit_div, all lo,hi,d", "bn_digit_div: EINVAL for d=0, else hi:lo == q*d+r, r<d, remainder_hi == 0", cost=300, timeout=600))
     return out
 
 
@@ -112,7 +162,7 @@ def max_ac(w, extra):
 
 def kern_jobs(tier):
     out = []
-    for w in WIDTHS:
+    for w in (WIDTHS if tier == "thorough" else (8, 64)):
         base, t = cfg(w, 1), tag(w, 1)
         full = (tier == "thorough") or w == 8
         acs = list(range(1, max_ac(w, False) + 1))
@@ -151,6 +201,10 @@ def kern_jobs(tier):
                 if not full:
                     shapes = [s for s in shapes if s in ((1, 1), (2, 1), (2, 2), (3, 2))][:3]
                 for ac, bc in shapes:
+                    if variant == "cc" and w == 64 and (ac, bc) != (1, 1):
+                        continue        # real 64x64->128 products: only the smallest shape finishes quickly
+                    if variant == "cc" and w == 64 and k == "K_MULD" and not full:
+                        continue        # 64x64 real product of mult_digit: > 400 s on cadical [measured]; thorough tier only (the uf variant covers the carry logic)
                     d = dict(base, AC=ac, BC=bc, VDIG=ac + (1 if extra else 0), **vd)
                     d[k] = None
                     out.append(J("kern-%s-%s-%s-a%db%d" % (k[2:].lower(), variant, t, ac, bc), "kern.c", d, (w + 2) if k == "K_MULD" else max(ac, bc) + 2,
@@ -164,7 +218,7 @@ def kern_jobs(tier):
 # ------------------------------------------------------------------ layer 2b: import / export
 def impexp_jobs(tier):
     out = []
-    for w in WIDTHS:
+    for w in (WIDTHS if tier == "thorough" else (8, 32)):
         base, t, sz = cfg(w, 1), tag(w, 1), w // 8
         full = (tier == "thorough")
         def X(op, ac, dg, bs, fl, desc, kf=None):
@@ -186,6 +240,8 @@ def impexp_jobs(tier):
                 out.append(X("X_IMP_BE_BIN", ac, min(1, ac), bs, 0, "bn_import_be_bin: value == big-endian bytes, or EINVAL (empty) / EOVERFLOW (too long)"))
                 out.append(X("X_IMP_LE_BIN", ac, min(1, ac), bs, 0, "bn_import_le_bin: value == little-endian bytes, or EINVAL / EOVERFLOW"))
             hsizes = range(0, 2 * cap + 3) if dense else sorted(set([0, 1, 2, 3, 2 * cap, 2 * cap + 1]))
+            if not full and w >= 32:
+                hsizes = [0, 2, 3, 5]
             for bs in hsizes:
                 if bs > 20:
                     continue
@@ -196,9 +252,15 @@ def impexp_jobs(tier):
                 sizes = sorted(set(s for s in (list(range(0, need + 2)) if dense else [0, 1, need - 1, need, need + 1]) if s >= 0))
                 for bs in sizes:
                     for fl in (0, 1):
+                        if not full and w >= 32 and fl == 1 and bs not in (need, need + 1):
+                            continue
                         out.append(X("X_EXP_BE_BIN", ac, dg, bs, fl, "bn_export_be_bin: bytes denote the value, size reported; EOVERFLOW iff it does not fit; EINVAL empty buffer"))
+                        if KF["export_le_bin"] and 0 < bs < need:
+                            continue    # whole shape excluded by the known finding
                         out.append(X("X_EXP_LE_BIN", ac, dg, bs, fl, "bn_export_le_bin: bytes denote the value, size reported; EOVERFLOW iff it does not fit; EINVAL empty buffer", kf="export_le_bin"))
                 hs = sorted(set(s for s in (list(range(0, 2 * need + 4)) if full else [1, 2, 3, 2 * need - 1, 2 * need, 2 * need + 1, 2 * need + 2]) if s >= 0))
+                if not full and w >= 32:
+                    hs = [h for h in hs if h in (1, 2, 2 * need - 1, 2 * need, 2 * need + 1)]
                 for bs in hs:
                     if bs > 36:
                         continue
@@ -212,7 +274,7 @@ def impexp_jobs(tier):
 def wrap_jobs(tier):
     out = []
     full = (tier == "thorough")
-    for w in WIDTHS:
+    for w in (WIDTHS if full else (8, 32)):
         base, t = cfg(w, 1), tag(w, 1)
         maxc = min(4, 128 // w)
         def Wj(op, ca, da, cb=None, db=0, extra=None, desc="", kf=None, uw=None, suffix="", **kw):
@@ -234,9 +296,9 @@ def wrap_jobs(tier):
         if w == 8 and full:
             pairs = [(ca, da, cb, db) for ca in range(1, 5) for da in range(0, ca + 1) for cb in sorted(set([ca, 4, 1])) for db in range(0, cb + 1)]
         elif w == 8:
-            pairs = [(3, 2, 3, 2), (3, 2, 3, 3), (3, 3, 3, 1), (2, 2, 3, 3), (3, 0, 3, 2), (3, 2, 3, 0), (3, 0, 3, 0), (4, 4, 4, 4), (1, 1, 1, 1)]
+            pairs = [(3, 2, 3, 2), (3, 2, 3, 3), (2, 2, 3, 3), (3, 0, 3, 2), (3, 2, 3, 0), (3, 0, 3, 0), (4, 4, 4, 4)]
         else:
-            pairs = [(2, 1, 2, 2), (2, 2, 2, 1), (2, 2, 2, 2), (1, 1, 2, 2), (2, 0, 2, 1)]
+            pairs = [(2, 1, 2, 2), (2, 2, 2, 1), (2, 0, 2, 1)] if not full else [(2, 1, 2, 2), (2, 2, 2, 1), (2, 2, 2, 2), (1, 1, 2, 2), (2, 0, 2, 1)]
             if full and maxc >= 4:
                 pairs += [(4, 3, 4, 4), (4, 4, 4, 2), (3, 3, 4, 1)]
         for ca, da, cb, db in pairs:
@@ -272,6 +334,8 @@ def wrap_jobs(tier):
         mshapes = [(ca, da, db) for ca in range(1, maxc + 1) for da in range(0, ca + 1) for db in range(0, ca + 1)]
         if not full:
             mshapes = [m for m in mshapes if m in ((2, 1, 1), (3, 2, 1), (4, 2, 2), (2, 2, 1), (2, 0, 1), (3, 1, 2), (4, 3, 1), (4, 1, 3))]
+            if w >= 32:     # 128-bit oracle arithmetic: the 3..4 digit products take ~1 min each -> thorough
+                mshapes = [m for m in mshapes if m in ((2, 1, 1), (2, 2, 1), (2, 0, 1), (4, 2, 2))]
         for ca, da, db in mshapes:
             out.append(Wj("O_MULT", ca, da, ca, db, {"STUB_bn_digit_mult__int": None}, "bn_mult: bn*n == sum of digit products, or EOVERFLOW iff digits(bn)+digits(n) > cap; digit multiply uninterpreted", suffix="-uf", cost=da * db + 1))
             if da + da <= ca + 1 and db == da:
@@ -329,7 +393,8 @@ def div_jobs(tier):
         out.append(Dj(1, 1, 1, 1, 1, "REM_IS_BN", cost=100, tmo=1500))
         out.append(Dj(1, 1, 1, 1, 1, "REM_NULL", cost=100, tmo=1500))
         out.append(Dj(1, 1, 1, 1, 1, "USE_BN_MOD", cost=100, tmo=1500))
-        out.append(Dj(2, 2, 2, 1, 2, cost=400, tmo=1500))
+        out.append(Dj(2, 2, 2, 1, 2, cost=400, tmo=1500))      # measured 371 s
+        out.append(Dj(2, 2, 2, 2, 2, cost=400, tmo=1500))      # measured 370 s
     return out
 
 
@@ -420,4 +485,8 @@ def algo_jobs(tier):
 
 
 def jobs(tier):
-    return digit_jobs(tier) + kern_jobs(tier) + impexp_jobs(tier) + wrap_jobs(tier) + div_jobs(tier) + algo_jobs(tier)
+    out = digit_jobs(tier) + kern_jobs(tier) + impexp_jobs(tier) + wrap_jobs(tier) + div_jobs(tier) + algo_jobs(tier)
+    for j in out:
+        if tier == "quick":     # slowest quick job measured unloaded: 73 s; the box is shared, leave head room
+            j["timeout"] = max(j.get("timeout", 0), 400)
+    return out
